@@ -31,6 +31,8 @@ func main() {
 		rep = suiteReuse(*tier, *seed, *model)
 	case "C08":
 		rep = suiteConc(*tier, *seed, *model)
+	case "C20":
+		rep = suiteAsm(*tier, *seed, *model)
 	case "C18":
 		rep = suiteConvert(*tier, *seed, *model)
 	case "C19":
